@@ -453,6 +453,12 @@ theorem redirect_target (fs : Fs) (cfg : Config) (f loc : Bytes) (h : main fs cf
     ((indexPath fs cfg f).isSome = true ∨ cfg.listing = true) :=
   main_redirect fs cfg f loc h
 
+/-- **defaults_are_safe.**  Out of the box (settings absent) symlink checking is on, listing is off
+and the index file is `index.html` — the constructor's defaults as extracted from the source. -/
+theorem defaults_are_safe :
+    Gen.defaultCheckSymlink = true ∧ Gen.defaultListing = false ∧
+    Gen.defaultIndex = [105, 110, 100, 101, 120, 46, 104, 116, 109, 108] := by decide
+
 /-- "`path` is where the request may legitimately lead": the kernel is handed exactly `path`; it is
 derived from the request (or request + `/` + index file) through the chosen root; with symlink
 checking on it is a `realpath` answer inside that root, with it off it is `root ++ rest` with `rest`
